@@ -43,6 +43,7 @@ struct Ctx<'a, 'b> {
     mode: IpMode,
     filter: fn(&Enr) -> bool,
     local: usize,
+    ip_limit: bool,
     outstanding: Vec<Outstanding>,
     steps: Vec<String>,
     failures: Vec<(String, String)>,
@@ -168,7 +169,9 @@ impl<'a, 'b> Ctx<'a, 'b> {
                 if !after.iter().any(|(k1, _, _)| k1 == k) && !*pending {
                     let justified = offered.iter().any(|i| {
                         let r = &self.recs.list[*i].enr;
-                        r.node_id().raw() == *k && r.seq() > old.seq() && (contactable(self.mode, r).is_none() || !(self.filter)(r))
+                        // (with ip_limit the routing table's own /24 filters may reject the newer
+                        // record, in which case update_node drops the entry: C16's territory)
+                        r.node_id().raw() == *k && r.seq() > old.seq() && (contactable(self.mode, r).is_none() || !(self.filter)(r) || self.ip_limit)
                     });
                     if !justified {
                         self.failures.push(("C12".into(), "an entry was removed by a discovered record that is not a newer, inadmissible record of that node".into()));
@@ -219,6 +222,7 @@ pub fn run_case(idents: &[Ident], idx: u64, rng: &mut Rng, thorough: bool, hist:
             mode,
             filter: table_filter(filter_n),
             local,
+            ip_limit,
             outstanding: vec![],
             steps: vec![],
             failures: vec![],
